@@ -665,9 +665,9 @@ func (s *scope) interpretOp(obj pyObject, op OpExpression) pyObject {
 	case Not:
 		return s.negate(obj)
 	case Equal:
-		return newPyBool(reflect.DeepEqual(obj, s.interpretExpression(op.Expr)))
+		return newPyBool(pyEqual(obj, s.interpretExpression(op.Expr)))
 	case NotEqual:
-		return newPyBool(!reflect.DeepEqual(obj, s.interpretExpression(op.Expr)))
+		return newPyBool(!pyEqual(obj, s.interpretExpression(op.Expr)))
 	case Is:
 		return s.interpretIs(obj, op)
 	case IsNot:
@@ -724,6 +724,35 @@ func (s *scope) interpretJoin(base string, list *List) pyObject {
 		b.WriteString(string(y))
 	})
 	return pyString(b.String())
+}
+
+// pyEqual implements ==. Lists and dicts are compared item by item, so that a frozen list or dict (as
+// imported by subinclude, or taken from CONFIG) equals an ordinary one with the same contents.
+func pyEqual(a, b pyObject) bool {
+	if l1, ok := asList(a); ok {
+		l2, ok := asList(b)
+		if !ok || len(l1) != len(l2) {
+			return false
+		}
+		for i := range l1 {
+			if !pyEqual(l1[i], l2[i]) {
+				return false
+			}
+		}
+		return true
+	} else if d1, ok := asDict(a); ok {
+		d2, ok := asDict(b)
+		if !ok || len(d1) != len(d2) {
+			return false
+		}
+		for k, v1 := range d1 {
+			if v2, present := d2[k]; !present || !pyEqual(v1, v2) {
+				return false
+			}
+		}
+		return true
+	}
+	return reflect.DeepEqual(a, b)
 }
 
 func (s *scope) interpretIs(obj pyObject, op OpExpression) pyObject {
